@@ -188,11 +188,91 @@ Theorem c18_counter_dense_refuted :
 Proof. exact counter_dense_refuted. Qed.
 Print Assumptions c18_counter_dense_refuted.
 
+From Coq Require Import String.
+Local Open Scope string_scope.
+(* ==== JSON layer (model/Report.v: jvalue, dumps = json.dumps with ensure_ascii and the
+   default separators, loads; number tokens are opaque) ================================ *)
+
+(* The "json.dumps facts" that c18_framing / c18_encoding_independent take as hypotheses
+   are theorems of the modelled serialiser: for EVERY well-formed value (any nesting, any
+   strings: tag, braces, quotes, backslashes, raw newlines, control characters, non-ASCII,
+   lone surrogates) the serialisation is ASCII-only text without a raw newline, and that
+   of a dictionary starts with "{" and ends with "}". *)
+Theorem c18_dumps_shape :
+  (forall v, jwf v = true -> clean (dumps v) = true) /\
+  (forall kvs, jwf (JDict kvs) = true ->
+     payload_shape_b (dumps (JDict kvs)) = true /\ ascii_text (dumps (JDict kvs)) = true).
+Proof. split; [exact dumps_clean | exact dumps_dict_shape]. Qed.
+Print Assumptions c18_dumps_shape.
+
+Example c18_dumps_shape_example :
+  let v := JDict [(codes "a}", JList [JStr (codes "[tune-metric]: {" ++ [10; 34; 92; 233; 128512; 55296; 0; 127])%list; JNull;
+                                      JNum (codes "-1.5e+300"); JBool true; JDict []])] in
+  jwf v = true /\ dumps v = codes "{""a}"": [""[tune-metric]: {\n\""\\\u00e9\ud83d\ude00\ud800\u0000\u007f"", null, -1.5e+300, true, {}]}"
+  /\ loads (dumps v) = Some v.
+Proof. vm_compute. repeat split. Qed.
+
+(* String values come back unchanged: loads undoes dumps' escaping for EVERY string
+   (code points 0..0x10FFFF) — the tag, braces, quotes, backslashes, newlines, control
+   characters, non-ASCII and lone surrogates included — except that a high surrogate
+   immediately followed by a low surrogate is joined by json.loads into one character (a
+   property of the stdlib; excluded by no_surrogate_pair). *)
+Theorem c18_string_roundtrip :
+  (forall s rest fuel, forallb codepoint_ok s = true -> no_surrogate_pair s = true -> (List.length s < fuel)%nat ->
+     parse_string_body fuel (body s ++ 34 :: rest)%list = Some (s, rest)) /\
+  (forall s, forallb codepoint_ok s = true -> no_surrogate_pair s = true ->
+     loads (dumps (JStr s)) = Some (JStr s)).
+Proof. split; [exact parse_string_roundtrip | exact loads_dumps_str]. Qed.
+Print Assumptions c18_string_roundtrip.
+
+Example c18_string_roundtrip_example :
+  let s := [34; 92; 10; 13; 9; 8; 12; 0; 31; 127; 233; 8232; 65535; 65536; 128512; 1114111; 55296; 97; 56320; 55296; 123; 125] in
+  forallb codepoint_ok s = true /\ no_surrogate_pair s = true /\ loads (dumps (JStr s)) = Some (JStr s) /\
+  (* the excluded case is really different: *)
+  loads (dumps (JStr [55357; 56832])) = Some (JStr [128512]).
+Proof. vm_compute. repeat split. Qed.
+
+(* The Reporter on JSON values (fields it adds: st_worker_timestamp always, st_worker_time
+   and st_worker_cost only with add_time, st_worker_iter = the counter; size =
+   41 + number of characters of the ASCII payload, compared with 50000), the stream,
+   LocalBackend's reading and retrieve composed — with NO hypothesis about json.dumps left:
+   for every script with well-formed keyword arguments and clock tokens, every payload on
+   the stream has the json shape and is ASCII-only, the counters are strictly increasing,
+   the i-th payload is dumps (kwargs ++ reserved fields with the i-th counter) of a call
+   with no None value, no st_ key and size below the limit, and (other output tag-free) the
+   tuner parses exactly these payloads, in order, also when polling any prefix. *)
+Theorem c18_reporter_concrete :
+  forall add_time m1 m2 cevs k0, forallb cevent_ok cevs = true ->
+    match run_script m1 m2 k0 (map (to_event add_time) cevs) with
+    | (_, os, cs) =>
+        payloads_ok cs = true /\ payloads_ascii cs = true /\
+        StronglySorted lt (emitted_iters os) /\
+        Forall2 (sent_concrete add_time cevs) (emitted_iters os) (payloads_of cs) /\
+        (noise_ok cs = true ->
+         retrieve_model (readlines (render cs)) = payloads_of cs /\
+         forall n, poll_model (firstn n (render cs)) = delivered_upto cs n)
+    end.
+Proof. exact reporter_concrete. Qed.
+Print Assumptions c18_reporter_concrete.
+
+Example c18_reporter_concrete_example :
+  let ck := {| ck_timestamp := codes "1790000000.25"; ck_time := codes "0.5"; ck_cost := None |} in
+  let cevs := [CSay (codes "epoch 1 } [tune-metri");
+               CCall ck [(codes "loss", JNum (codes "0.25")); (codes "note", JStr (codes "[tune-metric]: {}" ++ [10; 233])%list)];
+               CCall ck [(codes "st_x", JNum (codes "1"))];
+               CCall ck [(codes "x", JNull)];
+               CCall ck [(codes "ok", JBool true)]] in
+  forallb cevent_ok cevs = true /\
+  let '(k', os, cs) := run_script MSG_UNSER MSG_LARGE reporter_init (map (to_event true) cevs) in
+  noise_ok cs = true /\ os = [Emitted 0; AssertionErr; AssertionErr; Emitted 1] /\
+  map loads (retrieve_model (readlines (render cs))) =
+    [Some (report_dict true ck [(codes "loss", JNum (codes "0.25")); (codes "note", JStr (codes "[tune-metric]: {}" ++ [10; 233])%list)] 0);
+     Some (report_dict true ck [(codes "ok", JBool true)] 1)].
+Proof. vm_compute. repeat split. Qed.
+
 (* non-vacuity: other output without newline on the same line as a report,
    braces in the other output, a payload containing the whole tag prefix and
    braces, a rejected report in between — hypotheses hold, result as stated *)
-From Coq Require Import String.
-Local Open Scope string_scope.
 Example c18_example :
   let p1 := codes "{""a"": ""[tune-metric]: {}}"", ""st_worker_iter"": 0}" in
   let p2 := codes "{""b"": {""c"": [1, NaN]}, ""st_worker_iter"": 2}" in
